@@ -221,6 +221,8 @@ class _Builder:
                     n['var']['t'] += toff
             if g.file != self.fn.file:
                 n['f'] = g.file
+            if n['k'] == 'return':
+                n['k'] = 'ireturn'      # leaves the helper, not the function it is spliced into (control continues after the call)
         self.next_id = off + maxid + 1
         # ---- parameters -> arguments
         args = c.get('args', [])
